@@ -865,7 +865,19 @@ fn reopened(raw: &[u8], st: &Stream) -> Option<Vec<u8>> {
     Some(out)
 }
 
+/// A run that did not finish within the timeout is repeated once (the machine is shared: a stalled machine must not be
+/// read as a hanging command); a command that really hangs does so again and is recorded as timed out.
 fn run_case(case: &Value, sylt: &str, lua: &str, scratch: &Path, shimdir: &Path, preamble: &str) -> Value {
+    let mut rec = run_case_once(case, sylt, lua, scratch, shimdir, preamble);
+    let again = rec["timed_out"] == true;
+    if again {
+        rec = run_case_once(case, sylt, lua, scratch, shimdir, preamble);
+    }
+    rec.as_object_mut().unwrap().insert("repeated".into(), json!(again));
+    rec
+}
+
+fn run_case_once(case: &Value, sylt: &str, lua: &str, scratch: &Path, shimdir: &Path, preamble: &str) -> Value {
     let idx = case["idx"].as_u64().unwrap();
     let cfg = &case["cfg"];
     let (mode, path, io) = (cfg["mode"].as_str().unwrap(), cfg["path"].as_str().unwrap(), cfg["io"].as_str().unwrap());
